@@ -1,27 +1,43 @@
 ---- MODULE MCLedger ----
 (* Model-checking instance of Ledger: the universe the adapter sets up on the real nodes (harness/adapters/ledger):
-   a1 (votes for a3, holds 100 T), a2 (holds 100 T), a3 (registered candidate, deposit 300 LEMO), a4 (asset issuer,
-   may register), I (the deputies' income address), the deposit pool P, the zero address Z and five contracts.
+   a1 (votes for a3), a2, a3 (registered candidate, deposit 300 LEMO), a4 (issuer of all assets, may register), I (the deputies' income address), the deposit pool P, the zero address Z and five contracts.
    Amounts in units of 10^15 mo (1 LEMO = 1000), gas price 1 unit: the balances are those of the real setup
    for seed 1; the abstract gas values are the real intrinsic costs (data bytes rounded). *)
 EXTENDS Ledger
+\* The issued assets of the setup chain, all issued by a4: T (category 1, token: divisible, replenishable, its one id is the
+\* code; a1 and a2 hold 100 each), N (category 2, non-fungible: ids N1 - a1's, issued with amount 100 - and N2 - a2's,
+\* amount 1), C (category 3, divisible, replenishable: ids C1 - a1 holds 100 - and C2 - a2 holds 100), G (category 3,
+\* divisible, not replenishable, FROZEN by the setup chain after id G1 - a1 holds 100 - was issued); X1..X3 are the ids
+\* that issue transactions of the scenario create (category 2 / 3: a new id per issue transaction).
+McCodes == {"T", "N", "C", "G"}
+McIds   == {"T", "N1", "N2", "C1", "C2", "G1", "X1", "X2", "X3"}
+McAssets == [x \in McCodes |-> CASE x = "T" -> [cat |-> 1, div |-> TRUE, repl |-> TRUE, iss |-> "a4"]
+                                  [] x = "N" -> [cat |-> 2, div |-> FALSE, repl |-> FALSE, iss |-> "a4"]
+                                  [] x = "C" -> [cat |-> 3, div |-> TRUE, repl |-> TRUE, iss |-> "a4"]
+                                  [] x = "G" -> [cat |-> 3, div |-> TRUE, repl |-> FALSE, iss |-> "a4"]]
+McMeta == [i \in McIds |-> CASE i = "T" -> {"a1", "a2"} [] i \in {"N1", "C1", "G1"} -> {"a1"} [] i \in {"N2", "C2"} -> {"a2"} [] OTHER -> {}]
 McAcc == {"a1", "a2", "a3", "a4", "I", "M1", "M2", "F", "R", "P", "Z", "KS", "KR", "KX", "KD", "KO"}
 \* M1 / M2: the miner accounts of the two genesis deputies (registered by the genesis block without a deposit, income
 \* address I); F: founder = reward manager; R: the reward precompile.
 McCtx == [V |-> 200000, D |-> 100000, mindep |-> 300000, income |-> "I", pool |-> "P", zero |-> "Z", issuer |-> "a4",
           rev |-> {"KR", "KX"}, sink |-> {"KS"}, burn |-> {"KD"}, back |-> {"KO"},
           deps |-> <<{"M1", "M2"}>>, payees |-> << <<[a |-> "I", v |-> 0], [a |-> "I", v |-> 0]>> >>,
-          prec |-> 1000, rm |-> "F", rc |-> "R", rpool |-> 600000000]
-McInit == [bal   |-> [a \in McAcc |-> CASE a = "a1" -> 409000 [] a = "a2" -> 186000 [] a = "a3" -> 256728
-                                        [] a = "a4" -> 991480 [] a = "I" -> 219544 [] a = "P" -> 300000
-                                        [] a = "M1" -> 1209828 [] a = "M2" -> 764184 [] a = "F" -> 995655848 [] OTHER -> 0],
+          prec |-> 1000, rm |-> "F", rc |-> "R", rpool |-> 600000000,
+          assets |-> McAssets, fresh |-> <<"X1", "X2", "X3">>, meta |-> McMeta]
+McInit == [bal   |-> [a \in McAcc |-> CASE a = "a1" -> 408796 [] a = "a2" -> 186000 [] a = "a3" -> 256524
+                                        [] a = "a4" -> 990540 [] a = "I" -> 227952 [] a = "P" -> 300000
+                                        [] a = "M1" -> 1210060 [] a = "M2" -> 764280 [] a = "F" -> 995655848 [] OTHER -> 0],
            votes |-> [a \in McAcc |-> IF a = "a3" THEN 5 ELSE 0],
            vf    |-> [a \in McAcc |-> IF a = "a1" THEN "a3" ELSE NONE],
            reg   |-> [a \in McAcc |-> IF a \in {"a3", "M1", "M2"} THEN "yes" ELSE "no"],
            dep   |-> [a \in McAcc |-> IF a = "a3" THEN 300000 ELSE 0],
-           eq    |-> [a \in McAcc |-> IF a \in {"a1", "a2"} THEN 100 ELSE 0],
+           eq    |-> [i \in McIds |-> [a \in McAcc |-> CASE i = "T" /\ a \in {"a1", "a2"} -> 100
+                                                          [] i \in {"N1", "C1", "G1"} /\ a = "a1" -> 100
+                                                          [] i = "N2" /\ a = "a2" -> 1 [] i = "C2" /\ a = "a2" -> 100 [] OTHER -> 0]],
+           idc   |-> [i \in McIds |-> CASE i = "T" -> "T" [] i \in {"N1", "N2"} -> "N" [] i \in {"C1", "C2"} -> "C" [] i = "G1" -> "G" [] OTHER -> NONE],
            code  |-> [a \in McAcc |-> a \in {"KS", "KR", "KX", "KD", "KO"}],
-           sup   |-> 200, frz |-> FALSE,
+           sup   |-> [x \in McCodes |-> CASE x = "N" -> 2 [] x = "G" -> 100 [] OTHER -> 200],
+           frz   |-> [x \in McCodes |-> x = "G"],
            h |-> 3, T |-> 1000000, I |-> 1000, rwd |-> <<0, 0>>, rwt |-> <<0, 0>>,
            idx |-> [a \in McAcc |-> a \in {"a3", "M1", "M2"}], stab |-> FALSE]
 \* The term-boundary worlds: setup block 4 lets M1 and a4 vote for a3, gives both genesis deputies a deposit (M1 300,
@@ -33,8 +49,8 @@ McInit == [bal   |-> [a \in McAcc |-> CASE a = "a1" -> 409000 [] a = "a2" -> 186
 McCtxTerm  == [McCtx EXCEPT !.deps = <<{"M1", "M2"}, {"a3", "M2"}>>,
                             !.payees = << <<[a |-> "I", v |-> 0], [a |-> "I", v |-> 0]>>, <<[a |-> "a3", v |-> 10], [a |-> "I", v |-> 4]>> >>]
 McInitT    == [McInit EXCEPT !.bal = [a \in McAcc |-> CASE a = "a1" -> 408796 [] a = "a2" -> 186000 [] a = "a3" -> 256524
-                                        [] a = "a4" -> 546188 [] a = "I" -> 626788 [] a = "P" -> 1300000
-                                        [] a = "M1" -> 765148 [] a = "M2" -> 254708 [] a = "F" -> 995655848 [] OTHER -> 0],
+                                        [] a = "a4" -> 545860 [] a = "I" -> 626788 [] a = "P" -> 1300000
+                                        [] a = "M1" -> 765380 [] a = "M2" -> 254804 [] a = "F" -> 995655848 [] OTHER -> 0],
                              !.votes = [a \in McAcc |-> CASE a = "a3" -> 10 [] a = "M1" -> 3 [] a = "M2" -> 4 [] a = "a4" -> 3 [] OTHER -> 0],
                              !.vf = [a \in McAcc |-> IF a \in {"a1", "a4", "M1"} THEN "a3" ELSE NONE],
                              !.reg = [a \in McAcc |-> IF a \in {"a3", "a4", "M1", "M2"} THEN "yes" ELSE "no"],
@@ -50,6 +66,8 @@ McGas == [xfer |-> 21000, vote |-> 35000, reg |-> 112000, topup |-> 112000, unre
 McAAmtQ == {-60, 0, 1, 100, 101, 2000000000}
 McAAmtT == {-60, 0, 100, 101}
 McAAmtS == {-60, -1, 0, 1, 40, 100, 101, 2000000000}
+McAAmtC == {0, 1, 100, 101}
 McIAmt  == {-5, 0, 50}
+McIAmtC == {0, 50}
 McIAmtS == {-5, 0, 1, 50}
 ====
